@@ -38,6 +38,11 @@ QUICK_TZ = ['UTC', 'America/New_York', 'Europe/London', 'Australia/Lord_Howe',
             'Australia/Sydney', 'America/Sao_Paulo', 'Asia/Kolkata',
             'Asia/Kathmandu', 'Pacific/Kiritimati', 'Pacific/Pago_Pago',
             'Africa/Casablanca', 'XXX-14', 'EST5EDT', '<+0530>-5:30']
+# "right" zones count leap seconds: the C library's gmtime() is off by the
+# leap seconds since 1972 there.  Only where the zone files are installed.
+RIGHT_TZ = [z for z in ('right/UTC', 'right/America/New_York')
+            if os.path.exists(os.path.join('/usr/share/zoneinfo', z))]
+QUICK_TZ += RIGHT_TZ
 UTC = datetime.timezone.utc
 EPOCH = datetime.datetime(1970, 1, 1, tzinfo=UTC)
 
